@@ -138,16 +138,17 @@ class Column:
 
 
 class DatModel:
-    def __init__(self, lines, final_newline=True):
+    def __init__(self, lines, final_newline=True, eol='\n'):
         self.lines = list(lines)
         self.final_newline = final_newline
+        self.eol = eol                  # line terminator: '\n' or '\r\n' (not part of the content)
 
     def copy(self):
-        return DatModel([ln.copy() for ln in self.lines], self.final_newline)
+        return DatModel([ln.copy() for ln in self.lines], self.final_newline, self.eol)
 
     def text(self):
-        s = '\n'.join(ln.text() for ln in self.lines)
-        return s + '\n' if self.final_newline and self.lines else s
+        s = self.eol.join(ln.text() for ln in self.lines)
+        return s + self.eol if self.final_newline and self.lines else s
 
     def bytes(self):
         """The text as ASCII bytes (for binary file-type detection)."""
@@ -225,12 +226,26 @@ def _seps(rng, n, style):
     return [_sep(rng) for _ in range(n)]
 
 
-def random_name(rng, taken):
+def random_name(rng, taken, wide=False):
+    """wide: the whole [A-Z0-9]+ name space - one to eight characters, digits anywhere (also first), names that extend
+    or abbreviate the three time names (UTIM2, DATE1, TIM, TIMES).  At least one letter (an all-digit name reads like a number)."""
     while True:
-        k = rng.choice([2, 3, 3, 4, 4, 4, 5])
-        n = ''.join(rng.choice('ABCDEFGHIJKLMNOPQRSTUVWXYZ') for _ in range(k))
-        if rng.random() < 0.15:
-            n = n[:-1] + rng.choice('0123456789')
+        if wide and rng.random() < 0.5:
+            r = rng.random()
+            if r < 0.2:
+                n = rng.choice(['UTIM', 'DATE', 'TIME']) + rng.choice(['2', '1', 'S', 'X', '0'])
+            elif r < 0.3:
+                n = rng.choice(['UTI', 'DAT', 'TIM', 'T', 'D', 'U', 'TIMEUTIM', 'DATETIME'])
+            else:
+                k = rng.choice([1, 1, 2, 3, 6, 7, 8])
+                n = ''.join(rng.choice('ABCDEFGHIJKLMNOPQRSTUVWXYZ0123456789') for _ in range(k))
+                if not any(c.isalpha() for c in n):
+                    continue
+        else:
+            k = rng.choice([2, 3, 3, 4, 4, 4, 5])
+            n = ''.join(rng.choice('ABCDEFGHIJKLMNOPQRSTUVWXYZ') for _ in range(k))
+            if rng.random() < 0.15:
+                n = n[:-1] + rng.choice('0123456789')
         if n not in taken and n not in ('UTIM', 'DATE', 'TIME'):
             return n
 
@@ -262,8 +277,20 @@ def time_token(t):
     return '%02d-%02d-%02d' % (t.hour, t.minute, t.second)
 
 
-def random_model(rng, n_decl=(4, 30), n_rows=(0, 50), sep_style=None, date_style=None, time_like_channels=True):
-    """A well-formed random file.  n_decl includes UTIM, DATE, TIME (so >= 4)."""
+WIDE_UNITS = ['SEC', 'Sec', 'DDMMYY', 'HHMMSS', 'sec.', 'secs', '1', 'M3', 'UTIM', 'm/s2', 'ddmmyy.', '-', '%vol', 'DATE']
+WIDE_TRAILS = [' ', '  ', '\t', ' \t', '   ']
+
+
+def _trail(rng, p, wide):
+    if rng.random() >= p * (2 if wide else 1):
+        return ''
+    return rng.choice(WIDE_TRAILS) if wide else ' '
+
+
+def random_model(rng, n_decl=(4, 30), n_rows=(0, 50), sep_style=None, date_style=None, time_like_channels=True, wide=False):
+    """A well-formed random file.  n_decl includes UTIM, DATE, TIME (so >= 4).
+    wide (used by C14): the wider name space of random_name, more one-word units (upper-case spellings of the time units,
+    numeric-looking units), any run of blanks/tabs at the end of a line, and CRLF line ends for some files."""
     sep_style = sep_style or rng.choice(['space', 'space', 'tab', 'mixed', 'mixed'])
     nd = max(4, rng.randrange(n_decl[0], n_decl[1] + 1))
     decl = [('UTIM', ['Unix', 'Time'], 'sec'), ('DATE', ['Date'], 'ddmmyy'), ('TIME', ['Time'], 'hhmmss')]
@@ -272,10 +299,12 @@ def random_model(rng, n_decl=(4, 30), n_rows=(0, 50), sep_style=None, date_style
     taken = set()
     others = []
     for _ in range(nd - 3):
-        name = random_name(rng, taken)
+        name = random_name(rng, taken, wide)
         taken.add(name)
         desc = [rng.choice(DESC_WORDS) for _ in range(rng.choice([1, 1, 2, 2, 3, 4, 6]))]
         units = rng.choice(UNITS)
+        if wide and rng.random() < 0.12:
+            units = rng.choice(WIDE_UNITS)
         if not time_like_channels and units in ('sec', 'ddmmyy', 'hhmmss'):
             units = 'm'
         others.append((name, desc, units))
@@ -285,14 +314,14 @@ def random_model(rng, n_decl=(4, 30), n_rows=(0, 50), sep_style=None, date_style
     lines = []
     for name, desc, units in decl:
         toks = [name] + desc + [units]
-        lines.append(Line('decl', toks, _seps(rng, len(toks) - 1, sep_style), trail=' ' if rng.random() < 0.05 else ''))
+        lines.append(Line('decl', toks, _seps(rng, len(toks) - 1, sep_style), trail=_trail(rng, 0.05, wide)))
     # header: non-empty subset of the other channels in any order
     k = rng.choice([1, len(others), rng.randrange(1, len(others) + 1), rng.randrange(1, len(others) + 1)])
     chosen = rng.sample(others, k)
     if rng.random() < 0.25:
         chosen = [o for o in others if o in chosen]        # declaration order
     header = ['UTIM', 'DATE', 'TIME'] + [c[0] for c in chosen]
-    lines.append(Line('header', header, _seps(rng, len(header) - 1, sep_style)))
+    lines.append(Line('header', header, _seps(rng, len(header) - 1, sep_style), trail=_trail(rng, 0.05, wide) if wide else ''))
     nrows = rng.choice([0, 1, 2, rng.randrange(n_rows[0], n_rows[1] + 1), rng.randrange(n_rows[0], n_rows[1] + 1)])
     nrows = min(max(nrows, n_rows[0]), n_rows[1])
     style = date_style or rng.choice(['A', 'B', 'mixed'])
@@ -314,8 +343,10 @@ def random_model(rng, n_decl=(4, 30), n_rows=(0, 50), sep_style=None, date_style
         toks += [random_number_token(rng) for _ in chosen]
         if mirror is not None and nrows:
             toks[3 + mirror] = str(t0 + rng.randrange(nrows) * step)
-        lines.append(Line('row', toks, _seps(rng, len(toks) - 1, sep_style), trail=' ' if rng.random() < 0.03 else ''))
-    return DatModel(lines, final_newline=rng.random() < 0.9)
+        lines.append(Line('row', toks, _seps(rng, len(toks) - 1, sep_style), trail=_trail(rng, 0.03, wide)))
+    final_newline = rng.random() < 0.9
+    eol = '\r\n' if (wide and rng.random() < 0.15) else '\n'
+    return DatModel(lines, final_newline=final_newline, eol=eol)
 
 
 def generate(rng, **opts):
@@ -564,6 +595,27 @@ def _c_header_moved_time(rng, m):
     return Corruption('header-time-names-exchanged', m, 'raise', 'header', None, True, {})
 
 
+def _c_header_deleted(rng, m):
+    """The header line is lost: the data rows follow the declarations directly and nothing names the columns."""
+    hi = m.header_index
+    was = m.lines[hi].text()
+    del m.lines[hi]
+    return Corruption('header-deleted', m, 'raise', 'header', None, True, {'was': was[:80]})
+
+
+def _c_header_lowercase(rng, m):
+    """The header line in lower / mixed case is not the UTIM DATE TIME header (and no declaration either)."""
+    h = m.lines[m.header_index]
+    how = rng.choice(['lower', 'title', 'first-three'])
+    if how == 'lower':
+        h.tokens = [t.lower() for t in h.tokens]
+    elif how == 'title':
+        h.tokens = [t.title() for t in h.tokens]
+    else:
+        h.tokens[:3] = [t.lower() for t in h.tokens[:3]]
+    return Corruption('header-lowercase', m, 'raise', 'header', None, True, {'how': how})
+
+
 def _c_decl_garbage(rng, m):
     di = rng.choice(m.index_of('decl'))
     ln = m.lines[di]
@@ -671,6 +723,8 @@ CORRUPTION_TABLE = [
     ('header-swap', _c_header_swap),
     ('header-duplicated-line', _c_header_duplicated_line),
     ('header-time-names-exchanged', _c_header_moved_time),
+    ('header-deleted', _c_header_deleted),
+    ('header-lowercase', _c_header_lowercase),
     ('decl-garbage', _c_decl_garbage),
     ('decl-blank', _c_decl_blank),
     ('decl-remove', _c_decl_remove),
